@@ -54,6 +54,15 @@ func init() {
 			{Name: "forward entry: better metric adopted in place, path and next hop kept", ExpectRule: "C13.R4", ExpectKey: "(*routing.ForwardTable).AddRoute", Edits: []Edit{
 				{File: "internal/routing/forward.go", Old: "\t\t\t\tcloned := route.Clone()\n\t\t\t\tcloned.LastUpdate = time.Now()\n\t\t\t\tt.routes[key][i] = cloned\n", New: "\t\t\t\t_ = i\n\t\t\t\tr.Metric = route.Metric\n"},
 			}},
+			{Name: "rewrite: +1 on receipt in a helper, forwarded bump by copy + index loop", Edits: []Edit{
+				{File: "internal/routing/manager.go", Old: "\t\t\tMetric:      entry.Metric + 1, // Increment metric\n\t\t\tPath:        path,\n\t\t\tEncPath:     encPath,\n\t\t\tSequence:    sequence,\n\t\t}\n\n\t\tif m.table.AddRoute(route) {", New: "\t\t\tMetric:      metricViaPeer(entry.Metric),\n\t\t\tPath:        path,\n\t\t\tEncPath:     encPath,\n\t\t\tSequence:    sequence,\n\t\t}\n\n\t\tif m.table.AddRoute(route) {"},
+				{File: "internal/routing/manager.go", Old: "// RouteEntry is a simplified route for advertisements.", New: "func metricViaPeer(advertised uint16) uint16 {\n\treturn advertised + 1\n}\n\n// RouteEntry is a simplified route for advertisements."},
+				{File: "internal/flood/flood.go", Old: "\tfor i, r := range routes {\n\t\tr.Metric++\n\t\tfwdRoutes[i] = r\n\t}\n", New: "\tcopy(fwdRoutes, routes)\n\tfor i := range fwdRoutes {\n\t\tfwdRoutes[i].Metric++\n\t}\n"},
+			}},
+			{Name: "receipt helper returns the advertised metric unchanged", ExpectRule: "C13.R1", ExpectKey: "ProcessRouteAdvertise", Edits: []Edit{
+				{File: "internal/routing/manager.go", Old: "\t\t\tMetric:      entry.Metric + 1, // Increment metric\n\t\t\tPath:        path,\n\t\t\tEncPath:     encPath,\n\t\t\tSequence:    sequence,\n\t\t}\n\n\t\tif m.table.AddRoute(route) {", New: "\t\t\tMetric:      metricViaPeer(entry.Metric),\n\t\t\tPath:        path,\n\t\t\tEncPath:     encPath,\n\t\t\tSequence:    sequence,\n\t\t}\n\n\t\tif m.table.AddRoute(route) {"},
+				{File: "internal/routing/manager.go", Old: "// RouteEntry is a simplified route for advertisements.", New: "func metricViaPeer(advertised uint16) uint16 {\n\treturn advertised\n}\n\n// RouteEntry is a simplified route for advertisements."},
+			}},
 			{Name: "rewrite: forwarded routes built with append and an explicit +1", Edits: []Edit{
 				{File: "internal/flood/flood.go", Old: "\tfwdRoutes := make([]protocol.Route, len(routes))\n\tfor i, r := range routes {\n\t\tr.Metric++\n\t\tfwdRoutes[i] = r\n\t}\n", New: "\tvar fwdRoutes []protocol.Route\n\tfor _, r := range routes {\n\t\tfwdRoutes = append(fwdRoutes, protocol.Route{AddressFamily: r.AddressFamily, PrefixLength: r.PrefixLength, Prefix: r.Prefix, Metric: 1 + r.Metric})\n\t}\n"},
 			}},
@@ -128,43 +137,62 @@ func c13Strip(v ssa.Value) ssa.Value {
 	}
 }
 
-// c13IsIncrement: v is metric+k (k >= 1 constant) of a loaded Metric field.
-func c13IsIncrement(v ssa.Value) bool {
-	b, ok := c13Strip(v).(*ssa.BinOp)
-	if !ok || b.Op != token.ADD {
+// c13Bound is a value inside a helper together with the binding of the helper's parameters to
+// the arguments of the call that was followed to reach it.
+type c13Bound struct {
+	v    ssa.Value
+	bind map[*ssa.Parameter]ssa.Value
+}
+
+// c13Unbind strips conversions and replaces bound parameters by their arguments.
+func c13Unbind(v ssa.Value, bind map[*ssa.Parameter]ssa.Value) ssa.Value {
+	for i := 0; i < 8; i++ {
+		v = c13Strip(v)
+		prm, ok := v.(*ssa.Parameter)
+		if !ok {
+			return v
+		}
+		a, ok := bind[prm]
+		if !ok {
+			return v
+		}
+		v = a
+	}
+	return v
+}
+
+// c13IncB: b is <a loaded Metric field> + k, k >= 1 constant; wire: the field must be the Metric
+// of a protocol.Route (the received wire metric).
+func c13IncB(b c13Bound, wire bool) bool {
+	bo, ok := c13Unbind(b.v, b.bind).(*ssa.BinOp)
+	if !ok || bo.Op != token.ADD {
 		return false
 	}
-	if k, isc := kit.ConstInt(b.Y); isc && k >= 1 && c13FieldNamed(c13Strip(b.X), "Metric") {
+	isMetric := func(x ssa.Value) bool {
+		f, base := kit.LoadedField(c13Unbind(x, b.bind))
+		if f == nil || f.Name() != "Metric" {
+			return false
+		}
+		if !wire {
+			return true
+		}
+		n := c11NamedIn(base.Type(), "internal/protocol")
+		return n != nil && n.Obj().Name() == "Route"
+	}
+	if k, isc := kit.ConstInt(bo.Y); isc && k >= 1 && isMetric(bo.X) {
 		return true
 	}
-	if k, isc := kit.ConstInt(b.X); isc && k >= 1 && c13FieldNamed(c13Strip(b.Y), "Metric") {
+	if k, isc := kit.ConstInt(bo.X); isc && k >= 1 && isMetric(bo.Y) {
 		return true
 	}
 	return false
 }
 
+// c13IsIncrement: v is metric+k (k >= 1 constant) of a loaded Metric field.
+func c13IsIncrement(v ssa.Value) bool { return c13IncB(c13Bound{v: v}, false) }
+
 // c13IsWireIncrement: v is <Metric of a protocol.Route> + k, k >= 1 constant.
-func c13IsWireIncrement(v ssa.Value) bool {
-	b, ok := c13Strip(v).(*ssa.BinOp)
-	if !ok || b.Op != token.ADD {
-		return false
-	}
-	wire := func(x ssa.Value) bool {
-		f, base := kit.LoadedField(c13Strip(x))
-		if f == nil || f.Name() != "Metric" {
-			return false
-		}
-		n := c11NamedIn(base.Type(), "internal/protocol")
-		return n != nil && n.Obj().Name() == "Route"
-	}
-	if k, isc := kit.ConstInt(b.Y); isc && k >= 1 && wire(b.X) {
-		return true
-	}
-	if k, isc := kit.ConstInt(b.X); isc && k >= 1 && wire(b.Y) {
-		return true
-	}
-	return false
-}
+func c13IsWireIncrement(v ssa.Value) bool { return c13IncB(c13Bound{v: v}, true) }
 
 // c13Describe renders a value for a diagnosis: field loads as Type.Field.
 func c13Describe(v ssa.Value) string {
@@ -176,34 +204,50 @@ func c13Describe(v ssa.Value) string {
 	return c12Short(v)
 }
 
-// c13Alts expands a value through phis and through the returns of single-result flood helpers.
-func c13Alts(v ssa.Value, depth int) []ssa.Value {
+// c13AltsB expands a value through phis and through the returns of single-result helpers of the
+// repository (parameters bound to the call's arguments).
+func c13AltsB(b c13Bound, depth int) []c13Bound {
 	if depth > 5 {
-		return []ssa.Value{v}
+		return []c13Bound{b}
 	}
-	switch x := c13Strip(v).(type) {
+	switch x := c13Unbind(b.v, b.bind).(type) {
 	case *ssa.Phi:
-		var out []ssa.Value
+		var out []c13Bound
 		for _, e := range x.Edges {
 			if e == ssa.Value(x) {
 				continue
 			}
-			out = append(out, c13Alts(e, depth+1)...)
+			out = append(out, c13AltsB(c13Bound{e, b.bind}, depth+1)...)
 		}
 		return out
 	case *ssa.Call:
 		cal := kit.CalleeOf(x)
-		if cal.Static != nil && cal.Static.Blocks != nil && kit.FuncPkgPath(cal.Static) == kit.PkgPath(c11FloodPkg) && cal.Static.Signature.Results().Len() == 1 {
-			var out []ssa.Value
+		if cal.Static != nil && cal.Static.Blocks != nil && kit.IsRepoPkg(kit.FuncPkgPath(cal.Static)) && cal.Static.Signature.Results().Len() == 1 && !x.Call.IsInvoke() {
+			nb := map[*ssa.Parameter]ssa.Value{}
+			for i, prm := range cal.Static.Params {
+				if i < len(x.Call.Args) {
+					nb[prm] = c13Unbind(x.Call.Args[i], b.bind)
+				}
+			}
+			var out []c13Bound
 			for _, ret := range kit.Returns(cal.Static) {
 				if ret.Block() != cal.Static.Recover {
-					out = append(out, c13Alts(kit.ReturnResult(ret, 0), depth+1)...)
+					out = append(out, c13AltsB(c13Bound{kit.ReturnResult(ret, 0), nb}, depth+1)...)
 				}
 			}
 			return out
 		}
 	}
-	return []ssa.Value{v}
+	return []c13Bound{{c13Unbind(b.v, b.bind), b.bind}}
+}
+
+// c13Alts is c13AltsB without the bindings.
+func c13Alts(v ssa.Value, depth int) []ssa.Value {
+	var out []ssa.Value
+	for _, b := range c13AltsB(c13Bound{v: v}, depth) {
+		out = append(out, b.v)
+	}
+	return out
 }
 
 // c13IsPathLen: v is len(x) of an agent-id list.
@@ -240,11 +284,14 @@ func runC13(p *kit.Program, r *kit.Report) {
 			r.Violation("C13.R1", l.key()+" Metric", pos, "the learned route record is built without a metric: it is stored with metric 0 whatever its distance")
 			continue
 		}
-		alts := c11Resolve(p, mv)
+		var alts []c13Bound
+		for _, res := range c11Resolve(p, mv) {
+			alts = append(alts, c13AltsB(c13Bound{v: res}, 0)...) // "+1" may live in a small helper
+		}
 		ok := len(alts) > 0
 		allLen := len(alts) > 0
 		for _, a := range alts {
-			inc, pl := c13IsIncrement(a), c13IsPathLen(cx, a)
+			inc, pl := c13IncB(a, false), c13IsPathLen(cx, a.v)
 			if !inc && !pl {
 				ok = false
 			}
@@ -339,9 +386,9 @@ func runC13(p *kit.Program, r *kit.Report) {
 			ord++
 			nMW++
 			var bad []string
-			for _, alt := range c13Alts(st.Val, 0) {
-				if !c13IsWireIncrement(alt) && !c13IsPathLen(cx, alt) {
-					bad = append(bad, c13Describe(alt))
+			for _, alt := range c13AltsB(c13Bound{v: st.Val}, 0) {
+				if !c13IncB(alt, true) && !c13IsPathLen(cx, alt.v) {
+					bad = append(bad, c13Describe(alt.v))
 				}
 			}
 			bad = c12Uniq(bad)
